@@ -30,6 +30,11 @@ merge of the handshake's error channels closes on every path (the two repairs of
 always returns" — so theorem 5 is about the code as it is. -/
 theorem c17_handshake_bounded : (Gen.handshakeDeadline && Gen.mergeErrorsReleases) = true := by decide
 
+/-- regenerated fact: every dial in handleCallReq is bounded (net.DialTimeout or a method of a `net.Dialer{…}`
+literal that sets Timeout/Deadline; the repair d4164a7 of review 5-D #2) — "the dial always returns", the
+second switch of the `callHandler` model. -/
+theorem c17_dial_bounded : Gen.dialBounded = true := by decide
+
 /-- **1. nonces are fresh**: on a connection no two requests ever carry the same nonce. -/
 theorem nonce_fresh (evs : List Ev) (i j k : Nat)
     (hi : ((run init evs).reqs i).nonce = some k) (hj : ((run init evs).reqs j).nonce = some k) :
@@ -267,27 +272,32 @@ theorem one_copy_fires_once (o : Obj) (a : Nat) (v w : Res) (b c : Bool) :
         split <;> (split <;> simp [List.getElem?_set, hlt])
       · simp [h2, ha]
 
-/-! ### 5. a silent peer does not wedge requests to other peers (`callHandler`) -/
+/-! ### 5. a silent or black-holed peer does not wedge requests to other peers (`callHandler`) -/
 
-/-- the full statement, parameterised by whether the handshake read is bounded -/
-def silent_peer_isolated_full (deadline : Bool) : Prop :=
+/-- the full statement, parameterised by whether the handshake read (`deadline`) and the dial (`dialB`)
+are bounded: every request to a peer that answers is handed on, whatever the other requests in the history
+are about — peers that refuse, fail the handshake, accept and stay silent, or never answer the SYN. -/
+def silent_peer_isolated_full (deadline dialB : Bool) : Prop :=
   ∀ (h : Handler) (evs : List HEv) (i p : Nat), h.wedged = false →
-    HEv.call i p .ok ∈ evs → HOut.handed i p ∈ (hrun deadline h evs).2
+    HEv.call i p .ok ∈ evs → HOut.handed i p ∈ (hrun deadline dialB h evs).2
 
 theorem hstep_not_wedged (h : Handler) (e : HEv) (hw : h.wedged = false) :
-    (hstep true h e).1.wedged = false := by
+    (hstep true true h e).1.wedged = false := by
   cases e with
   | call i p d =>
     cases hc : h.clients.contains p
-    · rw [hstep_call_new true h i p d hw hc]; cases d <;> simp [hw]
-    · rw [hstep_call_known true h i p d hw hc]; exact hw
-  | remove p => exact (hstep_remove true h p hw).1
+    · rw [hstep_call_new true true h i p d hw hc]; cases d <;> simp [hw]
+    · rw [hstep_call_known true true h i p d hw hc]; exact hw
+  | remove p => exact (hstep_remove true true h p hw).1
   | tick => exact hw
 
-/-- **5. with the handshake bounded (the code as repaired; see `c17_handshake_bounded`)** every request
-to a peer that answers is handed to that peer's client, whatever other peers do — refuse, fail the
-handshake or stay silent — before or after it. -/
-theorem silent_peer_isolated : silent_peer_isolated_full true := by
+example : (hstep true true {} (.call 0 7 .blackhole)).1.wedged = false ∧
+    (hstep true true {} (.call 0 7 .silent)).1.wedged = false := ⟨rfl, rfl⟩
+
+/-- **5. with the handshake and the dial bounded (the code as repaired; see `c17_handshake_bounded`,
+`c17_dial_bounded`)** every request to a peer that answers is handed to that peer's client, whatever other
+peers do — refuse, fail the handshake, stay silent or never answer the SYN — before or after it. -/
+theorem silent_peer_isolated : silent_peer_isolated_full true true := by
   intro h evs
   induction evs generalizing h with
   | nil => intro i p _ hm; simp at hm
@@ -296,62 +306,107 @@ theorem silent_peer_isolated : silent_peer_isolated_full true := by
     simp only [hrun]
     rcases List.mem_cons.mp hm with he | he
     · subst he
-      have : HOut.handed i p ∈ (hstep true h (.call i p .ok)).2 := by
+      have : HOut.handed i p ∈ (hstep true true h (.call i p .ok)).2 := by
         cases hc : h.clients.contains p
-        · rw [hstep_call_new true h i p .ok hw hc]; simp
-        · rw [hstep_call_known true h i p .ok hw hc]; simp
+        · rw [hstep_call_new true true h i p .ok hw hc]; simp
+        · rw [hstep_call_known true true h i p .ok hw hc]; simp
       exact List.mem_append_left _ this
     · exact List.mem_append_right _ (ih _ i p (hstep_not_wedged h e hw) he)
 
-/-- the same for the code's own value of the switch -/
+example : HOut.handed 2 8 ∈
+    (hrun true true {} [.call 0 7 .silent, .call 1 9 .blackhole, .call 2 8 .ok]).2 := by decide
+
+/-- the same for the code's own values of the switches -/
 theorem silent_peer_isolated_code :
-    silent_peer_isolated_full (Gen.handshakeDeadline && Gen.mergeErrorsReleases) := by
-  rw [c17_handshake_bounded]; exact silent_peer_isolated
+    silent_peer_isolated_full (Gen.handshakeDeadline && Gen.mergeErrorsReleases) Gen.dialBounded := by
+  rw [c17_handshake_bounded, c17_dial_bounded]; exact silent_peer_isolated
+
+/-- **with the dial bounded a request to a black-holed peer gets an error** (and one to a silent peer with
+the handshake bounded), and the handler goes on: it is not wedged afterwards. -/
+theorem blackhole_request_fails (h : Handler) (i p : Nat) (dl : Bool) (hw : h.wedged = false)
+    (hc : h.clients.contains p = false) :
+    hstep dl true h (.call i p .blackhole) = (h, [.failed i]) := by
+  rw [hstep_call_new dl true h i p .blackhole hw hc]; rfl
+
+example : hstep false true {} (.call 3 7 .blackhole) = ({}, [.failed 3]) := rfl
 
 /-- **the defect that was there (F13)**: without a bound on the handshake read the statement is false —
 one silent peer, then a request to a healthy one, which is never handed on. -/
-theorem silent_peer_wedges_without_deadline : ¬ silent_peer_isolated_full false := by
+theorem silent_peer_wedges_without_deadline (dialB : Bool) : ¬ silent_peer_isolated_full false dialB := by
   intro h
   have := h {} [.call 0 7 .silent, .call 1 8 .ok] 1 8 rfl (by simp)
-  revert this; decide
+  revert this; cases dialB <;> decide
 
-/-- … and what did hold even then: as long as no peer stays silent nothing wedges -/
+/-- **the defect that was there (review 5-D #2, repaired by d4164a7)**: with a bare `net.Dial` the statement
+is false although the handshake is bounded — the node is CONNECTED to the healthy peer 8 (first request),
+one request goes to a black-holed peer, and no later request to peer 8 is handed on, though none of them
+needs a dial. -/
+theorem blackhole_wedges_without_dial_bound (deadline : Bool) : ¬ silent_peer_isolated_full deadline false := by
+  intro h
+  have := h {} [.call 0 8 .ok, .call 1 7 .blackhole, .call 2 8 .ok] 2 8 rfl (by simp)
+  revert this; cases deadline <;> decide
+
+example : (hrun true false {} [.call 0 8 .ok, .call 1 7 .blackhole, .call 2 8 .ok, .call 3 8 .ok]).2 = [.handed 0 8] := rfl
+
+/-- … and it is total: once the unbounded dial has been entered for a black-holed peer that is not yet a
+client, NOTHING is handed on or failed any more, whatever is asked afterwards (requests wait at `sendReq`
+until their own deadline). -/
+theorem blackhole_wedge_is_total (deadline : Bool) (h : Handler) (i p : Nat) (evs : List HEv)
+    (hw : h.wedged = false) (hc : h.clients.contains p = false) :
+    (hrun deadline false h (.call i p .blackhole :: evs)).2 = [] := by
+  simp only [hrun]
+  rw [hstep_call_new deadline false h i p .blackhole hw hc]
+  simp only [Bool.false_eq_true, if_false]
+  rw [hrun_wedged deadline false _ evs rfl]; rfl
+
+example : (hrun true false {} (.call 0 7 .blackhole :: [.call 1 8 .ok, .call 2 9 .refused, .remove 8])).2 = [] := rfl
+
+/-- … and what did hold even then: as long as no peer stays silent and none is black-holed nothing wedges -/
 theorem silent_peer_isolated_partial (h : Handler) (evs : List HEv) (i p : Nat) (hw : h.wedged = false)
-    (hns : ∀ j q, HEv.call j q .silent ∉ evs) (hm : HEv.call i p .ok ∈ evs) :
-    HOut.handed i p ∈ (hrun false h evs).2 := by
+    (hns : ∀ j q, HEv.call j q .silent ∉ evs) (hnb : ∀ j q, HEv.call j q .blackhole ∉ evs)
+    (hm : HEv.call i p .ok ∈ evs) :
+    HOut.handed i p ∈ (hrun false false h evs).2 := by
   induction evs generalizing h with
   | nil => simp at hm
   | cons e es ih =>
     simp only [hrun]
-    have hw' : (hstep false h e).1.wedged = false := by
+    have hw' : (hstep false false h e).1.wedged = false := by
       cases e with
       | call j q d =>
         cases hc : h.clients.contains q
-        · rw [hstep_call_new false h j q d hw hc]
+        · rw [hstep_call_new false false h j q d hw hc]
           cases d
           · simp [hw]
           · simp [hw]
           · simp [hw]
           · exact absurd List.mem_cons_self (hns j q)
-        · rw [hstep_call_known false h j q d hw hc]; exact hw
-      | remove q => exact (hstep_remove false h q hw).1
+          · exact absurd List.mem_cons_self (hnb j q)
+        · rw [hstep_call_known false false h j q d hw hc]; exact hw
+      | remove q => exact (hstep_remove false false h q hw).1
       | tick => exact hw
     rcases List.mem_cons.mp hm with he | he
     · subst he
-      have : HOut.handed i p ∈ (hstep false h (.call i p .ok)).2 := by
+      have : HOut.handed i p ∈ (hstep false false h (.call i p .ok)).2 := by
         cases hc : h.clients.contains p
-        · rw [hstep_call_new false h i p .ok hw hc]; simp
-        · rw [hstep_call_known false h i p .ok hw hc]; simp
+        · rw [hstep_call_new false false h i p .ok hw hc]; simp
+        · rw [hstep_call_known false false h i p .ok hw hc]; simp
       exact List.mem_append_left _ this
-    · exact List.mem_append_right _ (ih _ hw' (fun j q hh => hns j q (List.mem_cons_of_mem _ hh)) he)
+    · exact List.mem_append_right _ (ih _ hw' (fun j q hh => hns j q (List.mem_cons_of_mem _ hh))
+        (fun j q hh => hnb j q (List.mem_cons_of_mem _ hh)) he)
+
+example : HOut.handed 2 8 ∈ (hrun false false {} [.call 0 7 .refused, .call 1 9 .hsFail, .call 2 8 .ok]).2 := by
+  decide
 
 /-- every request the handler takes is answered one way or the other: handed to a client or failed
 with an error — never silently lost -/
 theorem handler_answers (h : Handler) (i p : Nat) (d : Dial) (hw : h.wedged = false) :
-    (hstep true h (.call i p d)).2 = [.handed i p] ∨ (hstep true h (.call i p d)).2 = [.failed i] := by
+    (hstep true true h (.call i p d)).2 = [.handed i p] ∨ (hstep true true h (.call i p d)).2 = [.failed i] := by
   cases hc : h.clients.contains p
-  · rw [hstep_call_new true h i p d hw hc]; cases d <;> simp
-  · rw [hstep_call_known true h i p d hw hc]; simp
+  · rw [hstep_call_new true true h i p d hw hc]; cases d <;> simp
+  · rw [hstep_call_known true true h i p d hw hc]; simp
+
+example : (hstep true true {} (.call 4 7 .blackhole)).2 = [.failed 4] ∧
+    (hstep true true { clients := [7] } (.call 4 7 .blackhole)).2 = [.handed 4 7] := ⟨rfl, rfl⟩
 
 /-! ### non-vacuity: concrete histories -/
 
@@ -376,8 +431,10 @@ example : ((run init demo).reqs 2).closes = 0 := rfl
 example : lookup (run init (demo.take 24)).conn.pending 1 = some 1 := rfl
 example : (run init (demo.take 31)).conn.ctxDone = true ∧ (run init (demo.take 31)).conn.stopped = false ∧
     (run init (demo.take 31)).conn.pending = [(0, 0)] := ⟨rfl, rfl, rfl⟩
-example : (hrun true {} [.call 0 7 .silent, .call 1 8 .ok]).2 = [.failed 0, .handed 1 8] := rfl
-example : (hrun false {} [.call 0 7 .silent, .call 1 8 .ok]).2 = [] := rfl
+example : (hrun true true {} [.call 0 7 .silent, .call 1 8 .ok]).2 = [.failed 0, .handed 1 8] := rfl
+example : (hrun false true {} [.call 0 7 .silent, .call 1 8 .ok]).2 = [] := rfl
+example : (hrun true true {} [.call 0 8 .ok, .call 1 7 .blackhole, .call 2 8 .ok]).2 =
+    [.handed 0 8, .failed 1, .handed 2 8] := rfl
 
 /-! ### 6. across connections: the server-level connection tables (`Model/ConnTable.lean`)
 
